@@ -9,9 +9,11 @@ from fractions import Fraction
 import core
 from core import D
 
-NONTERMINATING = [("4", "3"), ("1", "3"), ("1.0", "3.0"), ("2", "3"), ("5", "3"), ("1", "7"), ("2", "7"),
-                  ("10", "7"), ("1", "6"), ("7", "6"), ("1", "9"), ("11", "9"), ("3", "7"), ("1.0", "11.0"),
-                  ("13", "12"), ("100", "3")]
+# reverse splits are written with decimals (fractional results allowed); "1-for-3" in whole numbers is
+# kept once: it rejects a fractional result (a listed rejection, not a defect)
+NONTERMINATING = [("4", "3"), ("1.0", "3.0"), ("1.0", "3"), ("2.0", "3.0"), ("5", "3"), ("1.0", "7.0"), ("2.0", "7"),
+                  ("10", "7"), ("1.0", "6.0"), ("7", "6"), ("1.0", "9.0"), ("11", "9"), ("3.0", "7.0"), ("1.0", "11.0"),
+                  ("13", "12"), ("100", "3"), ("1", "3")]
 
 
 def residue_history(rng, afs=None, sec="FOO", n_after=None):
